@@ -45,6 +45,17 @@ pub fn run_part(ctx: &mut Ctx, which: &str) {
         if let Some(f) = v.get("failure").and_then(|x| x.as_str()) {
             // the failing schedule is printed by shuttle on stderr between quotes
             let sched = stderr.split("failing schedule:").nth(1).and_then(|s| s.split('"').nth(1)).map(|s| s.trim().to_string()).unwrap_or_default();
+            // before trusting the failure: replay the recorded schedule twice, both must fail the same way
+            if !sched.is_empty() {
+                let again = |_: u32| -> Option<String> {
+                    let o = std::process::Command::new(&bin).arg("replay").arg(which).arg(&sched).output().ok()?;
+                    String::from_utf8_lossy(&o.stdout).lines().filter_map(|l| serde_json::from_str::<Value>(l).ok()).filter_map(|v| v.get("failure").and_then(|x| x.as_str()).map(|s| s.to_string())).next()
+                };
+                let (r1, r2) = (again(1), again(2));
+                if r1.is_none() || r1 != r2 {
+                    crate::ctx::machinery_error(&format!("E5: the failing schedule of '{}' does not replay deterministically ({:?} / {:?}): uncontrolled nondeterminism in the driver", prog, r1, r2));
+                }
+            }
             ctx.violation(
                 format!("e5:{}:{}", which, f),
                 format!("under the controlled scheduler, program '{}' fails after {} schedules: {} (schedule {})", prog, n, f, if sched.is_empty() { "not captured".to_string() } else { sched.clone() }),
